@@ -20,7 +20,7 @@ import (
 	"verifharness/refdec"
 )
 
-var c05Opts = GenOpts{MaxNodes: 5, MultiHalt: true, Sinks: true, EchoInput: true, NoEndNodes: true, Errors: true}
+var c05Opts = GenOpts{MaxNodes: 5, MultiHalt: true, Sinks: true, EchoInput: true, NoEndNodes: true, Errors: true, ResetEmpty: true, CacheSize: true}
 
 func genC05(t *rapid.T) ModelCase {
 	o := c05Opts
@@ -70,7 +70,7 @@ func checkC05(c ModelCase) (o Outcome) {
 	return
 }
 
-var c06Opts = GenOpts{MaxNodes: 4, MultiHalt: true, Flags: true, ReservedFl: true, EchoInput: true, NoEndNodes: true, Errors: true}
+var c06Opts = GenOpts{MaxNodes: 4, MultiHalt: true, Flags: true, ReservedFl: true, EchoInput: true, NoEndNodes: true, Errors: true, RelCatch: true}
 
 // clearTerminate is the operator step: code outside the VM clears TERMINATE.
 func clearTerminate(real *app.Session, m *model.Session) {
@@ -151,6 +151,7 @@ func genC06(t *rapid.T) ModelCase {
 	if chancePct(t, 35, "block") && len(c.Inputs) > 2 {
 		c.BlockAt = []int{1 + uniformN(t, len(c.Inputs)-1, "blockat")}
 	}
+	c.First = chancePct(t, 25, "first")
 	return c
 }
 
@@ -228,7 +229,13 @@ func blockedRequestsInert(c ModelCase) *Violation {
 		storage, cleanup = newStorage(c.Mode.Backend)
 	}
 	defer cleanup()
-	real := app.NewSession(app.NewShared(c.App), c.Mode, storage)
+	theApp := c.App
+	if c.First {
+		cp := *c.App
+		cp.Cfg.First = &app.First{Content: "first"}
+		theApp = &cp
+	}
+	real := app.NewSession(app.NewShared(theApp), c.Mode, storage)
 	var prev *app.Snapshot
 	for i, in := range c.Inputs {
 		if !inputAccepted(string(in)) {
@@ -263,6 +270,15 @@ func blockedRequestsInert(c ModelCase) *Violation {
 				}
 				if !framesEqual(st.After.Frames, prev.Frames) {
 					return viol("blocked-request-cache", "request %d (%q) started with TERMINATE set but the cache changed", i, in)
+				}
+			}
+		}
+		// a session that ended gracefully starts again with an empty symbol cache: what is
+		// stored after its last request holds no symbol
+		if c.Mode.Kind == "persist" && !blocked && !st.Cont && st.ExecErr == "" && st.After != nil && !terminateOf(st.After.Flags) {
+			for li, fr := range st.After.Frames {
+				for k, v := range fr {
+					return viol("ended-session-keeps-symbols", "request %d (%q) ended the session gracefully, but the stored cache still holds %s=%q in scope %d (used size %d): the next session would find it loaded", i, in, k, v, li, st.After.Used)
 				}
 			}
 		}
